@@ -1,5 +1,6 @@
 import Iauthd.Proto.RefInv
 import Iauthd.Proto.RenderStep
+import Iauthd.Proto.Deliver
 /-
   `RefOK` over whole histories: every operation and every reload keeps it.
 -/
@@ -336,14 +337,19 @@ theorem applyConfig_ref (s : State) (live new : Config) (first : Bool) (h : RefO
   unfold applyConfig
   dsimp only
   have h1 : RefOK ({ s with timeout := new.timeout } : State).svcs ({ s with timeout := new.timeout } : State).reqs := h
-  split
-  · have h2 := servicesChanged_ref { s with timeout := new.timeout } (mergeSection live.xq new.xq) h1
+  have h2 : ∀ (s1 : State), RefOK s1.svcs s1.reqs →
+      RefOK (if s1.hasClass && (first || mergeSection live.cls new.cls != live.cls)
+        then classChanged s1 (mergeSection live.cls new.cls) else s1).svcs
+        (if s1.hasClass && (first || mergeSection live.cls new.cls != live.cls)
+        then classChanged s1 (mergeSection live.cls new.cls) else s1).reqs := by
+    intro s1 h
     split
-    · exact h2
-    · exact h2
-  · split
-    · exact h1
-    · exact h1
+    · exact h
+    · exact h
+  apply h2
+  split
+  · exact deliverXq_inv' (P := fun s => RefOK s.svcs s.reqs) (fun s sec h => servicesChanged_ref s sec h) _ _ _ _ h1
+  · exact h1
 
 /-! ### every operation -/
 
